@@ -1044,8 +1044,11 @@ func (m *machine) cancelTree(c *ctxV) {
 // ---------------------------------------------------------------------------
 // time: the clock is a symbolic non-decreasing integer (nanoseconds)
 
-func (m *machine) now() *symv {
-	n := m.freshAux("now", sInt)
+func (m *machine) now() value {
+	if m.concreteMode {
+		return m.concInt64("now")
+	}
+	n := m.fresh("now", sInt)
 	lo := int64(0)
 	if m.clock != nil {
 		m.assume("(>= " + n + " " + m.clock.t + ")")
@@ -1110,6 +1113,9 @@ func inTimeAfter(fr *frame, args []value) (value, bool) {
 func inRandInt64N(fr *frame, args []value) (value, bool) {
 	m := fr.m
 	n := args[len(args)-1]
+	if m.concreteMode {
+		return m.concIntOfKind("rand", basicKind(fr.fn.Signature.Results().At(0).Type())), true
+	}
 	v := m.fresh("rand", sInt)
 	m.assume("(and (>= " + v + " 0) (< " + v + " " + termOf(n) + "))")
 	_, hi := ivOf(n)
